@@ -33,7 +33,7 @@ var prefixes = []string{"", "x.y/", "github.com/u/", "a/b/", "a/b/v2/", "gopkg.i
 
 var lastElems = []string{"a", "d", "D", "fmt", "rand", "go", "int", "err", "any", "comparable", "pkg", "1x", "123", "x-y", "x.y", "ünï", "日本", "c", "v2", "d/", "d1", "d2", "D1", "template", "min", "pkg1", "C", "_", "d_1"}
 
-var stdCollide = []string{"math/rand", "crypto/rand", "math/rand/v2", "text/template", "html/template", "fmt", "os", "io", "net/http", "net/url", "strings", "bytes", "errors", "path", "path/filepath", "go/ast", "go/token", "go/types", "text/scanner", "go/scanner", "encoding/json", "encoding/xml", "io/fs", "testing/fstest", "container/list", "container/heap", "crypto/md5", "hash/crc32", "unicode/utf8", "unicode/utf16", "time", "sort", "sync", "sync/atomic", "math", "math/big", "math/bits", "os/exec", "os/signal", "runtime/debug", "debug/elf", "image/color", "go/build/constraint", "go/constant"}
+var stdCollide = []string{"math/rand", "crypto/rand", "math/rand/v2", "text/template", "html/template", "fmt", "os", "io", "net/http", "net/url", "strings", "bytes", "errors", "path", "path/filepath", "go/ast", "go/token", "go/types", "text/scanner", "go/scanner", "encoding/json", "encoding/xml", "io/fs", "testing/fstest", "container/list", "container/heap", "crypto/md5", "hash/crc32", "unicode/utf8", "unicode/utf16", "time", "sort", "sync", "sync/atomic", "math", "math/big", "math/bits", "os/exec", "os/signal", "runtime/debug", "debug/elf", "image/color", "go/build/constraint", "go/constant", "unsafe", "unsafe", "embed"}
 
 var hintNames = []string{"a", "d", "d1", "d2", "fmt", "rand", "foo", "ünï", "X", "pkg", "pkg_d", "pkg_d1", "p_d", "template", "c", "v2", "xy", "go1", "Rand", "q", "C"}
 
@@ -265,6 +265,32 @@ func Gen(pr Profile) func(t *rapid.T) Scenario {
 			ops = append(ops, recipe.FileOp{Op: "PackagePrefix", Args: []recipe.Text{recipe.Text(rapid.SampledFrom(prefixChoices).Draw(t, "pkgprefix2"))}})
 		}
 		_ = anonOnly
+		if rapid.IntRange(0, 3).Draw(t, "canonical") == 0 {
+			// a vanity import path: the package clause gains an import comment, nothing else may change
+			cp := "vanity.example/pkg"
+			switch rapid.IntRange(0, 3).Draw(t, "canonicalkind") {
+			case 0:
+				if local != "" {
+					cp = local
+				}
+			case 1:
+				cp = rapid.SampledFrom(sc.Paths).Draw(t, "canonicalpath")
+			case 2:
+				if local != "" {
+					cp = "vanity.example/" + local
+				}
+			}
+			clean := cp != ""
+			for _, r := range cp {
+				if r < 0x21 || r > 0x7e || r == '"' || r == '\\' || r == '`' {
+					clean = false
+				}
+			}
+			if !clean {
+				cp = "vanity.example/pkg"
+			}
+			ops = append(ops, recipe.FileOp{Op: "CanonicalPath", Args: []recipe.Text{recipe.Text(cp)}})
+		}
 		if pr.Cgo && rapid.IntRange(0, 3).Draw(t, "preamble") == 0 {
 			// a cgo preamble, whether or not "C" is referenced or anonymous-imported
 			ops = append(ops, recipe.FileOp{Op: "CgoPreamble", Args: []recipe.Text{recipe.Text(rapid.SampledFrom([]string{"#include <stdio.h>", "#include <a.h>\n#include <b.h>", "// #include <raw.h>"}).Draw(t, "preambletext"))}})
